@@ -3,7 +3,7 @@
 //! usage: c02 gen <seed> <tier> <cases_out>          generate inputs (one per line: `<class> <hex of UTF-8>`)
 //!        c02 work <cases> <out> <start> <end> [<stride> <offset>]   run the oracle on the cases i in [start,end) with
 //!                                                    i % stride == offset (a child of the watchdog)
-//!        c02 expand <recipe>                        print the text of a recipe case (`@nest:..`, `@chain:..`, `@nestproc,n`)
+//!        c02 expand <recipe>                        print the text of a recipe case (`@nest:..`, `@chain:..`, `@nestproc,n`, `@nestfunc,n`)
 //!        c02 ops <seed> <n> <cases_out> <impl_out>  cursor-algebra differential (TokenStream vs Parse/Stream.v)
 //!        c02 opsfile <cases_in> <impl_out>          the same on recorded cases
 //!
@@ -843,7 +843,7 @@ const WORDS: &[&str] = &[
     "buffer", "linkage", "bus", "register", "guarded", "transport", "reject", "inertial", "after", "unaffected",
     "severity", "default", "parameter", "group", "literal", "postponed", "sequence", "property", "restrict",
     "else", "elsif", "downto", "and", "or", "xor", "mod", "rem", "&", "+", "-", "*", "/", "**", "=", "/=", "<", ">",
-    ">=", ",", "[", "]", "<>", "x", "y", "clk", "1", "2.5", "'1'", "\"01\"", "x\"AF\"", "ns", "work", "ieee",
+    ">=", ",", "[", "]", "<>", "x", "y", "clk", "1", "2.5", "'1'", "\"01\"", "x\"AF\"", "16:FF:", "2:1:", "ns", "work", "ieee",
     "std_logic", "integer", "bit", "true", "e", "a", "p", "t", "private", "vpkg", "vmode", "vprop",
 ];
 const NONLATIN: &[&str] = &["\u{20ac}", "\u{1F600}", "x\u{20ac}", "b\u{20ac}", "ux\u{20ac}", "sb\u{1F600}", "d\u{20ac}", "\u{0416}", "o\u{4e2d}", "\u{2028}"];
@@ -944,6 +944,26 @@ const CATALOGUE: &[(char, &str)] = &[
     ('S', "x := a ' b ' c ( 1 ) ; y := s ' subtype ' high ; z := f ( a ) ' range ' length ; w := t ' ( 1 ) ' image ;"),
     ('S', "x := 16#FF# ; y := 2#1010_1010#e2 ; z := 1.5e-3 ; b := 8sb\"1010\" ; c := 12d\"13\" ; d := x\"AF\" ; t := 5 ns ;"),
     ('S', "block_lbl : block is variable v : integer ; begin v := 1 ; end block block_lbl ;"),
+    // parser paths added by b083503 / 9be9082 / f856258 / 0240b0c / bba3236 / a41ca14
+    ('C', "postponed s <= a ;"),
+    ('C', "l : postponed s <= a when c else b ;"),
+    ('C', "postponed ( a , b ) <= x ;"),
+    ('C', "postponed << signal . t . s : bit >> <= '1' ;"),
+    ('C', "postponed with sel select s <= a when '0' , b when others ;"),
+    ('C', "s <= guarded x ;"),
+    ('C', "l : s <= guarded transport x after 1 ns when c else y ;"),
+    ('C', "postponed s <= guarded reject 1 ns inertial x ;"),
+    ('D', "attribute a of 'c' : literal is 1 ;"),
+    ('D', "attribute a of 'c' , \"+\" , e [ return t ] : literal is 1 ;"),
+    ('A', "for all : c use open ; use lib . p . all ;"),
+    ('A', "for u1 , u2 : c use entity w . e ( a ) ; use lib . p . all ; signal s : bit ;"),
+    ('A', "for all : c use open ; use vunit v1 , v2 ; end for ;"),
+    ('D', "for all : c use open ; use lib . p . all ;"),
+    ('S', "x := 16:FF: ; y := 2:1:E3 ; z := 16:F.8: ; w := 16:FF ; v := 1 : 2 ; u := 16:g: ;"),
+    ('D', "constant c : integer := 16:FF: ; constant d : integer := 16:"),
+    ('U', "entity e is port ( a : in bit_vector ( 7 downto 0 ) := ; b : in bit ; c : out bit := ; d : inout t ) ; end ;"),
+    ('U', "entity e is generic ( g : integer := ; type t ; h : := 1 ; ; k : natural ) ; port ( a : in ; b : bit ) ; end ;"),
+    ('D', "procedure pr ( a : in bit_vector ( 7 downto 0 ) := ; b : in bit ; function f ( x : := ) return t ; c : t ) ;"),
 ];
 
 const PREFIXES: &[&str] = &[
@@ -981,6 +1001,7 @@ fn wrap(ctx: char, body: &str) -> String {
     match ctx {
         'D' => format!("package p is {} end package p ;", body),
         'C' => format!("entity e is end ; architecture a of e is begin {} end architecture a ;", body),
+        'A' => format!("architecture a of e is {} begin end architecture a ;", body),
         'S' => format!(
             "package body p is procedure q is begin {} end procedure q ; end package body p ;",
             body
@@ -1226,8 +1247,22 @@ fn shape_text(recipe: &str) -> String {
         let (_, pre, link, suf) = CHAIN_SHAPES.iter().find(|x| x.0 == name).unwrap();
         format!("{}{}{}", pre, link.repeat(n), suf)
     } else if f[0] == "nestproc" {
-        // procedure q (procedure q (a : integer; procedure q (a : integer; ...   (unclosed)
+        // procedure q (procedure q (a : integer; procedure q (a : integer; ...   (unclosed; finding F54, fixed by a41ca14)
         format!("package p is procedure q ( procedure q ( {}", "a : integer ; procedure q ( ".repeat(n))
+    } else if f[0] == "nestfunc" {
+        // balanced: function f (a : integer; function f (...) return t; z : integer) return t; ...
+        format!(
+            "package p is {}function f return t{} ; end ;",
+            "function f ( a : integer ; ".repeat(n),
+            " ; z : integer ) return t".repeat(n)
+        )
+    } else if f[0] == "nestfunc_noret" {
+        // the same with the return type missing: `... ) return ; z : integer ) return ; ...`
+        format!(
+            "package p is {}function f return {} ; end ;",
+            "function f ( a : integer ; ".repeat(n),
+            " ; z : integer ) return".repeat(n)
+        )
     } else {
         panic!("unknown recipe {}", recipe)
     }
@@ -1235,9 +1270,8 @@ fn shape_text(recipe: &str) -> String {
 
 fn gen(seed: u64, tier: &str, out_path: &str) {
     // tier = quick | thorough, 
-    // flags: `+chain` / `+nestproc` add the lengths at which the open known findings F53 / F54 manifest
+    // flag `+chain` adds the lengths at which the open known finding F53 manifests
     let with_chain = tier.contains("+chain");
-    let with_nestproc = tier.contains("+nestproc");
     let tier = tier.split('+').next().unwrap();
     let scale = if tier == "thorough" { 60 } else { 1 };
     let mut r = Rng::new(seed ^ 0xC02);
@@ -1518,13 +1552,11 @@ fn gen(seed: u64, tier: &str, out_path: &str) {
             }
         }
     }
-    for n in [1usize, 5, 10] {
+    // regression of F54 (a41ca14): error recovery of nested interface lists is no longer exponential
+    for n in [1usize, 5, 10, 24, 40, 100, 300] {
         emit_recipe(format!("nested_interface_subprogram_unclosed/{}", n), format!("nestproc,{}", n));
-    }
-    if with_nestproc {
-        for n in [24usize, 40] {
-            emit_recipe(format!("nested_interface_subprogram_unclosed/{}", n), format!("nestproc,{}", n));
-        }
+        emit_recipe(format!("nested_interface_subprogram_balanced/{}", n), format!("nestfunc,{}", n));
+        emit_recipe(format!("nested_interface_subprogram_noreturn/{}", n), format!("nestfunc_noret,{}", n));
     }
 }
 
